@@ -38,6 +38,10 @@ pub fn generate(tier: &str, rng: &mut Rng) -> Vec<Spec> {
         let len = 2 * n + 30 + i + j; let al = 3 + j as i64;
         let xs: Vec<String> = (0..len).map(|k| if k % 11 == 0 { rng.range(-500, 500).to_string() } else { rng.range(0, al).to_string() }).collect();
         v.push(mk(*n, &xs)); } }
+    // windows wider than 2^16 (anything that stores a link, an index or a count in 16 bits): a few samples only; Coq
+    // evaluates the boolean spec on these, not the list-based model (quadratic in the width)
+    for (i, n) in [65537usize, 70001].iter().enumerate() { for l in 1..=(if thorough { 6 } else { 4 }) {
+        let xs: Vec<String> = (0..l + i).map(|_| rng.range(0, 3).to_string()).collect(); v.push(mk(*n, &xs)); } }
     // sample types with a niche (Option<char>: the all-zero bit pattern is Some('\0'))
     for n in 1..=4 { for xs in super_all(&abc, if thorough { 6 } else { 4 }) { v.push(mk(n, &xs).with("ty", "char")); } }
     // Clone::clone_from into a filter that has seen other samples, from a source at every fill level
@@ -99,5 +103,11 @@ pub fn exec(s: &Spec, stats: &mut Stats) -> Outcome {
     if s.has("ty") && s.get("ty") == "char" { stats.bump("ty:char"); let cs: Vec<char> = xs.iter().map(|x| (b'a' + *x as u8) as char).collect(); return crate::dispatch_n!(n, run_char, (&cs, stats); 1 2 3 4); }
     if s.has("pre") { stats.bump("clone_from"); let pre: Vec<f64> = s.strs("pre").iter().map(|t| tok(t)).collect(); let split = s.usize("split");
         return crate::dispatch_n!(n, run_cf, (&xs, Some((&pre[..], split)), stats); 1 3 5); }
+    if n > 60000 { // the filter value alone is megabytes: run on a thread with a large stack
+        let xs2 = xs.clone();
+        let h = std::thread::Builder::new().stack_size(512 << 20).spawn(move || { crate::util::quiet_panics(); let mut st = Stats::default();
+            let o = match n { 65537 => run::<65537>(&xs2, &mut st), 70001 => run::<70001>(&xs2, &mut st), _ => Outcome::Skip("width-not-instantiated") }; (o, st.panics) }).unwrap();
+        return match h.join() { Ok((o, p)) => { stats.panics += p; o } Err(_) => Outcome::Skip("wide-window-thread-died") };
+    }
     crate::dispatch_n!(n, run, (&xs, stats); 1 2 3 4 5 6 7 8 9 10 11 12 13 16 32 100 129 200 300)
 }
